@@ -1,6 +1,6 @@
 """C05 - traces stay coherent under any history of edits and inference moves."""
 from ..common import Check
-from .. import gficheck, tlc
+from .. import gficheck, gfirecord, tlc
 
 INV = ["Coherent", "UpdateOK", "RegenerateOK", "MHOK", "GenerateOK", "ObservedKept", "Telescoping"]
 OPS = ["simulate", "generate", "update", "regenerate", "mh", "jit", "resample"]
@@ -27,4 +27,5 @@ def run(tier, argv):
                        "on the smallest programs (TLC, invariants Coherent/ObservedKept/Telescoping/... in every state); replay: TLC -simulate "
                        "histories of length 3-6 incl. lane resampling of vectorised traces, stepped through the real trace objects with the "
                        "observable state (choices, score, retval, weight, discard, assess) compared after every step")
+    chk.cov["recorded_events"] = gfirecord.run_b(chk, set(), ["f2", "fs", "fa", "fd", "fc", "fvf"], 0, history=3 if tier == "quick" else 40)
     return chk.finish()
